@@ -22,6 +22,7 @@ Wire Formats:
 from __future__ import annotations
 
 import base64
+import binascii
 import json
 import logging
 import uuid
@@ -131,7 +132,9 @@ class BytesCodec:
         if tag != TypeTag.BYTES:
             msg = f"Expected BYTES tag, got {tag}"
             raise SerDesError(msg)
-        return base64.b64decode(value.encode("utf-8"))
+        # binascii directly: base64.b64decode goes through a Python-level helper, one stack frame more
+        # than b64encode needs - the decoder must reach every nesting depth the encoder accepts
+        return binascii.a2b_base64(value.encode("utf-8"))
 
 
 class UuidCodec:
